@@ -45,6 +45,11 @@ def pool(rng):
     out.append(rr(NAMES[7], ("T", "SRV", [("I", 1), ("I", 2), ("I", 3), ("N", NAMES[7])])))
     out.append(rr(NAMES[8], ("T", "SRV", [("I", 0), ("I", 0), ("I", 53), ("N", [b"local"])])))
     out.append(rr(NAMES[4], ("T", "MX", [("I", 0), ("N", [])])))
+    # SVCB / HTTPS records in ServiceMode whose target (or, for the root target, whose owner) also owns address records: only an SRV
+    # answer brings additional records along
+    out.append(rr(NAMES[5], ("T", "SVCB", [("I", 1), ("N", NAMES[1]), ("L", [])])))
+    out.append(rr(NAMES[1], ("T", "HTTPS", [("I", 2), ("N", []), ("L", [(3, b"\x01\xbb")])])))
+    out.append(rr(NAMES[6], ("T", "HTTPS", [("I", 0), ("N", NAMES[3]), ("L", [])])))
     # record types above 255 next to a single address family
     out.append(rr(NAMES[0], ("T", "CAA", [("I", 0), ("B", b"issue"), ("B", b"ca.example")])))
     out.append(rr(NAMES[9], ("U", 65280, b"\x01")))
